@@ -828,3 +828,89 @@ func TestVerifC16Sessions(t *testing.T) {
 	r.Outcome("sessions explored")
 }
 
+
+
+// TestVerifC03NoMerge (part "nomerge", thorough tier): the BFS merges histories that
+// reach the same canonical state; this is sound only if the canonical state holds
+// everything that decides the future. Here no merging is done: every command
+// sequence up to a length bound over a reduced alphabet is executed, with the same
+// invariants. It covers short sessions independently of the canonical-state argument.
+func TestVerifC03NoMerge(t *testing.T) {
+	r := vx.Start("C03", "nomerge")
+	defer r.Finish()
+	depth := 5
+	r.Rule("every command sequence of length <= 5 (no merging of states) over {greeting, MAIL, MAIL refused sender, RCPT target 1, RCPT both targets, RCPT refused, DATA, DATA cut off by a disconnect, RSET, QUIT} on the real endpoint, in every single-fault world (one map order); same invariants as the BFS part (typestate, reply <=> commit, permits, truncated message never committed)")
+	if rp := r.Replay(); rp != nil {
+		var c c03Case
+		if json.Unmarshal(rp, &c) != nil || len(c.Cmds) == 0 {
+			return
+		}
+		res := c03Exec(c)
+		r.Eval()
+		if res.fp != "" {
+			r.Violation(res.fp, res.detail, c)
+		}
+		return
+	}
+	if r.Replaying() {
+		return
+	}
+	var n int64
+	for wi, w := range c03Worlds(false) {
+		if w.Perm != 0 || !r.Mine(wi) {
+			continue
+		}
+		hello := "EHLO client.example"
+		if w.LMTP {
+			hello = "LHLO client.example"
+		}
+		alpha := []string{hello, "MAIL FROM:<a@example.org>", "MAIL FROM:<x@refused.example>", "RCPT TO:<r1@t1.example>", "RCPT TO:<r3@both.example>", "RCPT TO:<nobody@nowhere.example>", "DATA", "DATA-CUT", "RSET", "QUIT"}
+		stop := false
+		var rec func(h []string)
+		rec = func(h []string) {
+			if stop || len(h) >= depth {
+				return
+			}
+			for _, cmd := range alpha {
+				if len(h) == 0 && cmd != hello {
+					continue
+				}
+				hist := append(append([]string{}, h...), cmd)
+				c := c03Case{World: w, Cmds: hist}
+				res := c03Exec(c)
+				if res.deadline {
+					r.Cap("deadline: " + vx.JSON(c))
+					continue
+				}
+				if res.skip {
+					continue
+				}
+				r.Eval()
+				n++
+				r.Nontrivial(vx.JSON(c))
+				if strings.HasPrefix(res.fp, "HARNESS:") {
+					r.HarnessError(res.fp + ": " + res.detail)
+					stop = true
+					return
+				}
+				if res.fp != "" {
+					v0 := r.Violations()
+					r.Violation(res.fp, res.detail+"\ncommands: "+strings.Join(hist, " / "), c)
+					if r.Violations() > v0 {
+						stop = true
+						r.Cap("world " + vx.JSON(w) + ": exploration stopped after a new violation")
+						return
+					}
+					continue
+				}
+				if res.ended {
+					r.Outcome("session-ended")
+					continue
+				}
+				rec(hist)
+			}
+		}
+		rec(nil)
+	}
+	r.Count("sequences", n)
+}
